@@ -174,6 +174,41 @@ Theorem C04_htlc_sigs_bind :
 Proof. intros. eapply htlc_sigs_bind; eassumption. Qed.
 Print Assumptions C04_htlc_sigs_bind.
 
+(** * Handler level: the requests [SignRemoteCommitmentTx2] / [SignRemoteCommitmentTx] as the
+      protocol handler hands them to the core ([wire_content]: msat amounts truncated to whole
+      satoshis, side 1 = offered by the counterparty, side 0 = received, other sides dropped).
+      The semantic request is answered with the signature of the canonical transaction of exactly
+      that content — every HTLC output is worth floor(amount_msat / 1000) — and the raw request
+      accepts that canonical transaction and returns the same signature. *)
+Theorem C04_wire_binding :
+  forall (sha rip : bytes -> bytes) (pk_parse : bytes -> option bytes) (s : setup) (k : ckeys)
+         (SK SIG : Type) (sign : SK -> bytes -> SIG) (funding_key htlc_key : SK) (value_ok : bool)
+         (accept : content -> bool),
+    (forall x, length (sha x) = 32%nat) -> (forall x, length (rip x) = 20%nat) ->
+    wf pk_parse s k ->
+    (forall c, accept c = true -> bounded c) ->
+    forall (num feerate to_local to_remote : N) (l : list whtlc) (sig : SIG) (hs : list SIG),
+      handle_sign_remote_commitment_tx2 sha rip s k SK SIG sign funding_key htlc_key value_ok accept
+                                        num feerate to_local to_remote l = Ok (sig, hs) ->
+      let c := wire_content num feerate to_local to_remote l in
+      sig = sign funding_key (commit_sighash sha s (canon_tx sha rip s k c))
+      /\ c_offered c = map wire_htlc (filter (fun w => w_side w =? 1) l)
+      /\ c_received c = map wire_htlc (filter (fun w => w_side w =? 0) l)
+      /\ (forall w, h_value (wire_htlc w) = w_msat w / 1000)
+      /\ length hs = (length (c_offered c) + length (c_received c))%nat
+      /\ handle_sign_remote_commitment_tx sha rip pk_parse s k SK SIG sign funding_key value_ok accept
+           (canon_tx sha rip s k c) (canon_ws sha rip s k c) num feerate l = Ok sig.
+Proof.
+  intros sha rip pk s k SK SIG sign fk hk vo acc Hs Hr W Hb num fr tl tr l sig hs H c.
+  unfold handle_sign_remote_commitment_tx2 in H. fold c in H.
+  pose proof (phase2_sig _ _ _ _ _ _ _ _ _ _ _ _ _ _ H) as [_ [_ [E _]]].
+  repeat split; try reflexivity; try exact E.
+  - eapply phase2_htlc_count. exact H.
+  - unfold handle_sign_remote_commitment_tx.
+    exact (entry_points_agree sha rip pk s k SK SIG sign fk hk vo acc Hs Hr W Hb c sig hs H).
+Qed.
+Print Assumptions C04_wire_binding.
+
 (** * Non-vacuity: a zero-fee-anchors commitment with three offered HTLCs (two of them identical)
       and no to_remote output, taken from a run of the harness (keys derived there with
       libsecp256k1).  Every premise of [C04_entry_points_agree_sha256] holds, phase 2 signs the
